@@ -1,0 +1,393 @@
+//go:build verif
+// +build verif
+
+package raft
+
+// Contracts for the deductive verifier in /verif (govc): replication (sequential pieces) and
+// leadership transfer (C02, C04, C09, C12, C16, C17). Comment-only file.
+
+// ---------------------------------------------------------------------------
+// small helpers
+
+// STUB (outside area repl) -- util.go min, verified (not trusted)
+//@ func min
+//@   ensures result0 == umin(a, b)
+
+//@ pure umin(a uint64, b uint64) uint64 = ite(a <= b, a, b)
+
+// notifyLdr only performs a select over channels (send of replUpdate{&r.status, u} to the leader
+// goroutine / stop): goroutine boundary, no modelled state is touched. trusted because the engine
+// rejects the body ("interior/local pointer escapes to heap or contract": &r.status).
+//@ func (*replication).notifyLdr
+//@   trusted
+
+// ---------------------------------------------------------------------------
+// AppendEntries response (C02, C17)
+//
+// PA4 (DESIGN 2.6): a follower never rejects prevLogIndex == 0 (onAppendEntriesRequest only
+// rejects when req.prevLogIndex > snaps.index >= 0), and the rejection that is handled here
+// answers the probe that was sent with prevLogIndex == nextIndex-1.
+
+// error sentinels declared as plainError (a string type) values: `err == ErrX` in Go boxes ErrX
+//@ pure IsPlainErr(e error, p plainError) bool = istype(e, plainError) && as(e, plainError) == p
+
+//@ pure IsReject(x rpcResult) bool = x == prevEntryNotFound || x == prevTermMismatch
+
+//@ func (*replication).onAppendEntriesResp
+//@   requires [PA4.no-reject-at-zero] IsReject(resp.result) ==> r.nextIndex >= 2
+//@   requires [PA2.result-domain] resp.result == success || resp.result == staleTerm || IsReject(resp.result) || resp.result == unexpectedErr
+//@   requires [PA2.last-index-no-overflow] resp.lastLogIndex < 18446744073709551615
+//@   modifies r.matchIndex, r.nextIndex
+//@   ensures [C02.match-only-on-success] r.matchIndex != old(r.matchIndex) ==> resp.result == success && result0 == nil && r.matchIndex == reqLastIndex
+//@   ensures [C02.match-never-lowered] r.matchIndex >= old(r.matchIndex)
+//@   ensures [C02.match-on-success] resp.result == success ==> result0 == nil && r.matchIndex == ite(reqLastIndex > old(r.matchIndex), reqLastIndex, old(r.matchIndex)) && r.nextIndex == old(r.nextIndex)
+//@   ensures [C17.backoff-variant] IsReject(resp.result) ==> (IsPlainErr(result0, ErrFaultyFollower) && resp.lastLogIndex < r.matchIndex && r.nextIndex == old(r.nextIndex)) || (result0 == nil && resp.lastLogIndex >= r.matchIndex && r.nextIndex < old(r.nextIndex) && r.nextIndex == umin(old(r.nextIndex) - 1, resp.lastLogIndex + 1) && r.nextIndex >= 1)
+//@   ensures [C17.backoff-faulty-iff] IsReject(resp.result) ==> (IsPlainErr(result0, ErrFaultyFollower)) == (resp.lastLogIndex < old(r.matchIndex))
+//@   ensures [C17.probe-success] resp.result == success && reqLastIndex == old(r.nextIndex) - 1 && old(r.matchIndex) < old(r.nextIndex) ==> r.nextIndex == r.matchIndex + 1
+//@   ensures [C17.next-only-on-reject] r.nextIndex != old(r.nextIndex) ==> IsReject(resp.result)
+//@   ensures [C17.stale-stops] resp.result == staleTerm ==> IsPlainErr(result0, errStop)
+//@   ensures [C17.remote-error] resp.result == unexpectedErr ==> result0 != nil
+
+// ---------------------------------------------------------------------------
+// the replication's read-only window on the leader's log (C04, C09)
+//
+//   Log.gprev / Log.glast : PrevIndex / LastIndex of the view (shared ghost fields)
+//   Log.geidx[i], geterm[i], getyp[i] : index/term/type of the entry stored at position i of
+//                           this view, gprev < i <= glast  (SAME ghost fields, ghost functions,
+//                           Get view and bytes.NewReader contract as in the fsm area file:
+//                           keep one copy when the files are merged).
+//                           Linking obligation for the leader side (outside this area): the view
+//                           handed over in leaderUpdate has geterm[i] == storage.gterm[i].
+//   bIdx/bTerm/bTyp(a, p) : fields of the encoded entry that starts at absolute position p of
+//                           byte array a (mmapped segment data)
+//
+// (duplicate of ghost Log.geidx removed: defined in verif_contracts_fsm.go)
+// (duplicate of ghost Log.geterm removed: defined in verif_contracts_fsm.go)
+// (duplicate of ghost Log.getyp removed: defined in verif_contracts_fsm.go)
+// (duplicate of ghost bIdx removed: defined in verif_contracts_fsm.go)
+// (duplicate of ghost bTerm removed: defined in verif_contracts_fsm.go)
+// (duplicate of ghost bTyp removed: defined in verif_contracts_fsm.go)
+
+// views of the log API used by the replication (same style as PrevIndex/LastIndex/ViewAt).
+// Get/GetN panic when the index is beyond LastIndex: that is their range precondition.
+// (duplicate of view (*log.Log).Contains removed: defined in verif_contracts_fsm.go)
+// (duplicate of view (*log.Log).Get removed: defined in verif_contracts_fsm.go)
+//@ view (*log.Log).GetN
+//@   requires [C03.view-bounds] i + n - 1 <= l.glast && n >= 1
+//@   ensures (result1 != nil) == (i <= l.gprev)
+//@   ensures len(result0) <= 9223372036854775807
+//@   ensures result1 != nil ==> result1 == log.ErrNotFound
+
+// T-std: a reader over a byte slice yields the entry encoded at the start of the slice.
+// (duplicate of func bytes.NewReader removed: defined in verif_contracts_fsm.go)
+
+//@ func (*replication).getEntryTerm
+//@   requires r.log != nil
+//@   requires [C13.get-range] i <= r.log.glast
+//@   modifies spos
+//@   maypanic OpError
+//@   ensures [C09.fallback] (result1 != nil) == (i <= r.log.gprev) && (result1 != nil ==> result1 == log.ErrNotFound)
+//@   ensures [C04.request-from-own-log] result1 == nil ==> result0 == r.log.geterm[i]
+
+// ---------------------------------------------------------------------------
+// what goes on the wire (C04): ghost record, per connection, of the header of the last
+// appendReq handed to the socket. The receiver side of the same framing is [PA1.consecutive]
+// of onAppendEntriesRequest.
+//@ ghost field conn.gsPrevIndex uint64
+//@ ghost field conn.gsPrevTerm uint64
+//@ ghost field conn.gsNum uint64
+
+// STUB (outside area repl) -- conn.go, network boundary: trusted. The bytes written are the
+// encoding of *req at the time of the call; I/O errors are never the log package's sentinel.
+//@ func (*conn).writeReq
+//@   trusted
+//@   modifies c.gsPrevIndex, c.gsPrevTerm, c.gsNum, c.gsSnapIndex, c.gsSnapTerm, c.gsSnapSize, c.gsSnapCfgIndex, c.gsSnapCfgTerm, c.gsSnapCfgNodes
+//@   ensures istype(req, *appendReq) ==> c.gsPrevIndex == as(req, *appendReq).prevLogIndex && c.gsPrevTerm == as(req, *appendReq).prevLogTerm && c.gsNum == as(req, *appendReq).numEntries
+//@   ensures !istype(req, *appendReq) ==> c.gsPrevIndex == old(c.gsPrevIndex) && c.gsPrevTerm == old(c.gsPrevTerm) && c.gsNum == old(c.gsNum)
+//@   ensures istype(req, *installSnapReq) ==> c.gsSnapIndex == as(req, *installSnapReq).lastIndex && c.gsSnapTerm == as(req, *installSnapReq).lastTerm && c.gsSnapSize == as(req, *installSnapReq).size && c.gsSnapCfgIndex == as(req, *installSnapReq).lastConfig.Index && c.gsSnapCfgTerm == as(req, *installSnapReq).lastConfig.Term && c.gsSnapCfgNodes == as(req, *installSnapReq).lastConfig.Nodes
+//@   ensures !istype(req, *installSnapReq) ==> c.gsSnapIndex == old(c.gsSnapIndex) && c.gsSnapTerm == old(c.gsSnapTerm) && c.gsSnapSize == old(c.gsSnapSize) && c.gsSnapCfgIndex == old(c.gsSnapCfgIndex) && c.gsSnapCfgTerm == old(c.gsSnapCfgTerm) && c.gsSnapCfgNodes == old(c.gsSnapCfgNodes)
+//@   ensures result0 != log.ErrNotFound
+
+// STUB (outside area repl) -- snapshots.go, verified
+// (duplicate of func (*snapshots).latest removed: defined in verif_contracts_fsm.go)
+
+// STUB (outside area repl) -- util.go: float arithmetic / sum of lengths, no state
+//@ func durationFor
+//@ func size
+//@   requires len(buffs) <= 9223372036854775807
+//@   loop 1 invariant rangeindex >= -1 && rangeindex < len(buffs)
+
+// T-std: errors of the net package are never the log package's sentinel
+//@ func net.Conn.SetWriteDeadline
+//@   trusted
+//@   ensures result0 != log.ErrNotFound
+//@ func (*net.Buffers).WriteTo
+//@   trusted
+//@   ensures result1 != log.ErrNotFound
+
+// time.Now arithmetic only
+//@ func (*replication).deadline
+//@ func (*replication).deadlineSize
+
+// socket write of entries from .. from+n-1 of the view. The entries must be the ones announced
+// by the header just written on this connection.
+//@ func (*replication).writeEntriesTo
+//@   requires r.log != nil && c.rwc != nil
+//@   requires [C04.entries-follow-header] from == c.gsPrevIndex + 1 && n == c.gsNum && n >= 1
+//@   requires [C09.entries-in-view] r.log.gprev < from
+//@   requires [C03.view-bounds] from + n - 1 <= r.log.glast
+//@   ensures result0 != log.ErrNotFound
+
+//@ pure ReplWF(r *replication) bool = r.log != nil && r.snaps != nil && r.ldrLastIndex == r.log.glast && r.nextIndex >= 1 && r.nextIndex <= r.ldrLastIndex + 1 && r.ldrLastIndex < 18446744073709551615
+//@ pure ViewTerm(r *replication, i uint64) uint64 = ite(i == 0, 0, ite(i == r.snaps.index, r.snaps.term, r.log.geterm[i]))
+//@ pure TermMissing(r *replication, i uint64) bool = i != 0 && i != r.snaps.index && i <= r.log.gprev
+
+//@ func (*replication).writeAppendEntriesReq
+//@   requires ReplWF(r) && c.rwc != nil
+//@   modifies r.nextIndex, req.prevLogIndex, req.prevLogTerm, req.numEntries, c.gsPrevIndex, c.gsPrevTerm, c.gsNum, spos
+//@   maypanic OpError
+//@   ensures [C04.request-from-own-log] result0 == nil ==> c.gsPrevIndex == old(r.nextIndex) - 1 && c.gsPrevTerm == ViewTerm(r, old(r.nextIndex) - 1) && c.gsNum == r.nextIndex - old(r.nextIndex)
+//@   ensures [C04.num-entries] result0 == nil ==> c.gsNum == ite(sendEntries, umin(r.ldrLastIndex - (old(r.nextIndex) - 1), 64), 0)
+//@   ensures [C04.req-is-what-was-sent] result0 == nil ==> req.prevLogIndex == c.gsPrevIndex && req.prevLogTerm == c.gsPrevTerm && req.numEntries == c.gsNum
+//@   ensures [C04.next-advances-by-sent] result0 != nil ==> r.nextIndex == old(r.nextIndex)
+//@   ensures [C09.fallback] (result0 == log.ErrNotFound) == (TermMissing(r, old(r.nextIndex) - 1) || (sendEntries && r.ldrLastIndex >= old(r.nextIndex) && old(r.nextIndex) <= r.log.gprev))
+//@   ensures [C09.fallback-sends-nothing] result0 == log.ErrNotFound ==> c.gsPrevIndex == old(c.gsPrevIndex) && c.gsPrevTerm == old(c.gsPrevTerm) && c.gsNum == old(c.gsNum)
+//@   ensures ReplWF(r)
+
+// ---------------------------------------------------------------------------
+// leader -> replication updates (goroutine boundary)
+//
+// Channel invariant of leaderUpdateCh (established by (*leader).notifyFlr, outside this area):
+// the leader's log is append-only and compaction only raises PrevIndex, so every update carries
+// a non-nil view whose LastIndex / PrevIndex are not below the ones of the previous view.
+//@ pure UpdateOK(r *replication, l *log.Log) bool = l != nil && l.glast >= r.ldrLastIndex && l.glast < 18446744073709551615 && l.gprev >= r.log.gprev
+
+//@ func (*replication).onLeaderUpdate
+//@   requires r.log != nil
+//@   requires [PA-chan.leader-update] UpdateOK(r, u.log)
+//@   modifies r.log, r.ldrLastIndex, r.node, req.ldrCommitIndex
+//@   ensures [C04.view-replaced] r.log == u.log && r.ldrLastIndex == u.log.glast && req.ldrCommitIndex == u.commitIndex
+//@   ensures r.ldrLastIndex >= old(r.ldrLastIndex) && r.log.gprev >= old(r.log.gprev)
+//@   ensures u.config == nil ==> r.node == old(r.node)
+//@   ensures u.config != nil ==> r.node == u.config.Nodes[r.status.id]
+
+// goroutine boundary (select over stopCh / leaderUpdateCh / timer): trusted. The received value is
+// arbitrary for the engine; the contract assumes the channel invariant above and then says what
+// onLeaderUpdate (verified) does with it.
+//@ func (*replication).checkLeaderUpdate
+//@   trusted
+//@   requires r.log != nil
+//@   modifies r.log, r.ldrLastIndex, r.node, req.ldrCommitIndex, all(r.timer)
+//@   ensures r.log != nil && r.ldrLastIndex >= old(r.ldrLastIndex) && r.log.gprev >= old(r.log.gprev) && r.ldrLastIndex < 18446744073709551615
+//@   ensures old(r.ldrLastIndex == r.log.glast) ==> r.ldrLastIndex == r.log.glast
+//@   ensures !result0 ==> r.log == old(r.log) && r.ldrLastIndex == old(r.ldrLastIndex) && r.node == old(r.node) && req.ldrCommitIndex == old(req.ldrCommitIndex)
+//@   ensures result1 != nil ==> IsPlainErr(result1, errStop) && !result0
+
+// ---------------------------------------------------------------------------
+// InstallSnapshot (C12, C02)
+//
+//   conn.gsSnap*      : header of the last installSnapReq handed to the socket
+//   snapshots.gop*    : label (meta) of the snapshot most recently opened by snapshots.open
+//@ ghost field conn.gsSnapIndex uint64
+//@ ghost field conn.gsSnapTerm uint64
+//@ ghost field conn.gsSnapSize int
+//@ ghost field conn.gsSnapCfgIndex uint64
+//@ ghost field conn.gsSnapCfgTerm uint64
+//@ ghost field conn.gsSnapCfgNodes uint64
+//@ ghost field snapshots.gopIndex uint64
+//@ ghost field snapshots.gopTerm uint64
+//@ ghost field snapshots.gopSize int
+//@ ghost field snapshots.gopCfgIndex uint64
+//@ ghost field snapshots.gopCfgTerm uint64
+//@ ghost field snapshots.gopCfgNodes uint64
+
+//@ pure OpenedLabel(s *snapshots, m snapshotMeta) bool = s.gopIndex == m.index && s.gopTerm == m.term && s.gopSize == m.size && s.gopCfgIndex == m.config.Index && s.gopCfgTerm == m.config.Term && s.gopCfgNodes == m.config.Nodes
+//@ pure SentLabelIsOpened(c *conn, s *snapshots) bool = c.gsSnapIndex == s.gopIndex && c.gsSnapTerm == s.gopTerm && c.gsSnapSize == s.gopSize && c.gsSnapCfgIndex == s.gopCfgIndex && c.gsSnapCfgTerm == s.gopCfgTerm && c.gsSnapCfgNodes == s.gopCfgNodes
+
+// STUB (outside area repl) -- snapshots.go (fsm area), file I/O: trusted. Opens the LATEST snapshot
+// (s.index) and decodes its label from the meta file.
+// the snapshot opened for an install (trusted view for this call site: the label read from the
+// meta file is recorded in ghost fields snapshots.gop*; the function itself is verified in
+// verif_contracts_fsm.go against the abstract label maps)
+//@ view (*snapshots).open at (*replication).sendInstallSnapReq
+//@   modifies contents(s.used), s.gopIndex, s.gopTerm, s.gopSize, s.gopCfgIndex, s.gopCfgTerm, s.gopCfgNodes
+//@   ensures result1 == nil ==> result0 != nil && isfresh(result0) && result0.snaps == s && result0.file != nil && OpenedLabel(s, result0.meta)
+//@   ensures result1 == nil ==> result0.meta.index == s.index
+
+
+// STUB (outside area repl) -- snapshots.go (fsm area)
+//@ view (*snapshot).release at (*replication).sendInstallSnapReq
+//@   requires s.snaps != nil && s.file != nil && s.snaps.used != nil
+//@   modifies contents(s.snaps.used)
+
+
+// STUB (outside area repl) -- conn.go, network boundary: trusted. [PA2] the decoded response was
+// produced by the peer's handler of the request just sent.
+//@ func (*conn).readResp
+//@   trusted
+//@   modifies allof(resp)
+//@   ensures result0 != log.ErrNotFound
+//@   ensures [PA2.result-domain] result0 == nil && istype(resp, *installSnapResp) ==> as(resp, *installSnapResp).result == success || as(resp, *installSnapResp).result == staleTerm || as(resp, *installSnapResp).result == unexpectedErr
+
+//@ func (*replication).sendInstallSnapReq
+//@   requires r.log != nil && r.snaps != nil && r.snaps.used != nil && c.rwc != nil
+//@   requires r.matchIndex <= r.snaps.index && r.ldrLastIndex < 18446744073709551615
+//@   modifies r.matchIndex, r.nextIndex, r.log, r.ldrLastIndex, r.node, appReq.ldrCommitIndex, all(r.timer), contents(r.snaps.used), r.snaps.gopIndex, r.snaps.gopTerm, r.snaps.gopSize, r.snaps.gopCfgIndex, r.snaps.gopCfgTerm, r.snaps.gopCfgNodes, c.gsSnapIndex, c.gsSnapTerm, c.gsSnapSize, c.gsSnapCfgIndex, c.gsSnapCfgTerm, c.gsSnapCfgNodes
+//@   maypanic OpError
+//@   ensures [C12.install-label] result0 == nil ==> SentLabelIsOpened(c, r.snaps)
+//@   ensures [C02.match-only-on-success] r.matchIndex != old(r.matchIndex) || r.nextIndex != old(r.nextIndex) ==> result0 == nil
+//@   ensures [C02.match-is-snapshot-index] result0 == nil ==> r.matchIndex == c.gsSnapIndex && r.nextIndex == r.matchIndex + 1 && r.matchIndex <= r.ldrLastIndex
+//@   ensures [C02.match-never-lowered] r.matchIndex >= old(r.matchIndex)
+//@   ensures r.log != nil && r.ldrLastIndex >= old(r.ldrLastIndex)
+//@   loop 1 invariant r.log != nil && r.ldrLastIndex >= old(r.ldrLastIndex) && r.ldrLastIndex < 18446744073709551615 && r.matchIndex == old(r.matchIndex) && r.nextIndex == old(r.nextIndex)
+//@   loop 1 invariant [C12.install-label] SentLabelIsOpened(c, r.snaps)
+//@   loop 1 invariant req.lastIndex == c.gsSnapIndex && req.lastIndex == r.snaps.index && r.snaps.index == old(r.snaps.index)
+//@   loop 1 invariant snap != nil && snap.snaps == r.snaps && snap.snaps != nil
+
+// ===========================================================================
+// leadership transfer (C16)
+
+// Timers. The reference file gives (*safeTimer).reset/stop trusted contracts with `modifies all(t)`
+// and no postcondition. To speak about timer.active (== transfer.inProgress()) these package-wide
+// views refine them (still trusted, time package boundary): stop() only clears active, reset(d)
+// only sets it; the timer and channel fields are not reassigned.
+//@ view (*safeTimer).stop
+//@   modifies t.active
+//@   ensures !t.active
+//@ view (*safeTimer).reset
+//@   modifies t.active
+//@   ensures t.active
+
+// trusted (T-std / time): IsZero is a deterministic function of the representation of the time
+// value (same text as in the leader / membership area files)
+// (duplicate of ghost tzero removed: defined in verif_contracts_fsm.go)
+// (duplicate of func (time.Time).IsZero removed: defined in verif_contracts_fsm.go)
+
+// STUB (outside area repl) -- task.go; same text as in the leader / fsm area files: closing the
+// done channel is the goroutine boundary, the observable effect is the ghost counter.
+// (duplicate of ghost task.greplied removed: defined in verif_contracts_fsm.go)
+// (duplicate of func (*task).reply removed: defined in verif_contracts_fsm.go)
+
+// STUB (outside area repl) -- changeconfig.go (membership area). gcfgchecks counts the runs.
+//@ ghost var gcfgchecks int
+// (duplicate of func (*leader).checkConfigActions removed: defined in verif_contracts_leader.go)
+// the call in replyTransfer: membership actions are re-evaluated only after the transfer has been
+// cleared (canChangeConfig tests !transfer.inProgress()); everything is havocked afterwards, so
+// this is stated as an obligation at the call.
+//@ view (*leader).checkConfigActions at (*leader).replyTransfer
+//@   nilable t
+//@   requires [C16.reply-clears] !l.transfer.timer.active && l.transfer.respCh == nil && !l.transfer.newTermTimer.active
+//@   requires [C16.actions-on-latest] config == l.configs.Latest
+//@   modifies *
+//@   ensures gcfgchecks == old(gcfgchecks) + 1
+
+//@ func (transfer).inProgress
+//@   requires t.timer != nil
+//@   ensures [C16.in-progress] result0 == t.timer.active
+//@ func (transfer).targetChosen
+//@   requires t.newTermTimer != nil
+//@   ensures [C16.target-chosen] result0 == (t.respCh != nil || t.newTermTimer.active)
+
+//@ func (*transfer).reply
+//@   requires t.timer != nil && t.newTermTimer != nil
+//@   modifies t.task.result, t.task.greplied, t.timer.active, t.respCh, t.newTermTimer.active
+//@   ensures [C16.reply-clears] !t.timer.active && t.respCh == nil && !t.newTermTimer.active
+//@   ensures [C15.reply-once] t.task != nil ==> t.task.greplied == old(t.task.greplied) + 1 && t.task.result == err
+
+//@ pure XferWF(l *leader) bool = l.Raft != nil && RaftWF(l.Raft) && PoolsInv(l.Raft) && l.transfer.timer != nil && l.transfer.newTermTimer != nil && l.transfer.timer != l.transfer.newTermTimer
+// identical to ReplsCover of the leader area: every other node of the latest configuration has a replication
+//@ pure XferReplsCover(l *leader) bool = l.repls != nil && forall(id, has(l.configs.Latest.Nodes, id) && id != l.nid ==> has(l.repls, id) && l.repls[id] != nil)
+
+// The sentinels are package variables of type plainError (their values are opaque to the engine),
+// so "each error iff its condition" is written as the decision cascade: the result is a function
+// of the conditions, first match wins, nil iff no condition holds.
+//@ func (*leader).validateTransfer
+//@   requires l.Raft != nil && l.storage != nil && l.transfer.timer != nil
+//@   ensures [C16.validate] l.transfer.timer.active ==> istype(result0, InProgressError)
+//@   ensures [C16.validate] !l.transfer.timer.active && NumVoters(l.configs.Latest) == 1 ==> IsPlainErr(result0, ErrTransferNoVoter)
+//@   ensures [C16.validate] !l.transfer.timer.active && NumVoters(l.configs.Latest) != 1 && t.target != 0 && t.target == l.nid ==> IsPlainErr(result0, ErrTransferSelf)
+//@   ensures [C16.validate] !l.transfer.timer.active && NumVoters(l.configs.Latest) != 1 && t.target != 0 && t.target != l.nid && !has(l.configs.Latest.Nodes, t.target) ==> IsPlainErr(result0, ErrTransferInvalidTarget)
+//@   ensures [C16.validate] !l.transfer.timer.active && NumVoters(l.configs.Latest) != 1 && t.target != 0 && t.target != l.nid && has(l.configs.Latest.Nodes, t.target) && !l.configs.Latest.Nodes[t.target].Voter ==> IsPlainErr(result0, ErrTransferTargetNonvoter)
+//@   ensures [C16.validate] (result0 == nil) == (!l.transfer.timer.active && NumVoters(l.configs.Latest) != 1 && (t.target == 0 || (t.target != l.nid && IsVoter(l.configs.Latest, t.target))))
+
+// (node ids are > 0: Config.validate / Node.validate; 0 means "no target")
+// who may receive timeoutNow: a voter other than the leader, reachable, whose match index equals
+// the leader's last index (so the successor lacks no entry the leader accepted)
+//@ pure Eligible(l *leader, t uint64) bool = t != l.nid && IsVoter(l.configs.Latest, t) && tzero(l.repls[t].status.noContact.wall, l.repls[t].status.noContact.ext) && l.repls[t].status.matchIndex == l.lastLogIndex
+
+// ghost record of the node the last timeoutNowReq was addressed to: the only thing tryTransfer does
+// with the chosen target is l.getConnPool(target) (the goroutine then uses that pool). This view,
+// used only at that call site, is the reference contract of getConnPool plus the ghost record.
+//@ ghost var xferTarget uint64
+//@ view (*Raft).getConnPool at (*leader).tryTransfer
+//@   requires r.storage != nil && PoolsInv(r)
+//@   modifies contents(r.connPools), xferTarget
+//@   ensures [C20.pool-identity] result0 != nil && result0.cid == r.cid && result0.nid == nid && result0.src == r.nid
+//@   ensures [C20.pools-inv] PoolsInv(r)
+//@   ensures xferTarget == nid
+
+//@ func (*leader).tryTransfer
+//@   requires XferWF(l) && XferReplsCover(l)
+//@   requires [C16.target-not-self] l.transfer.target != l.nid
+//@   requires !has(l.configs.Latest.Nodes, 0)
+//@   modifies l.transfer.respCh, contents(l.connPools), xferTarget
+//@   ensures [C16.target-is-caught-up-voter] l.transfer.respCh != old(l.transfer.respCh) ==> l.transfer.respCh != nil && isfresh(l.transfer.respCh) && xferTarget != 0 && Eligible(l, xferTarget) && (l.transfer.target != 0 ==> xferTarget == l.transfer.target)
+//@   ensures [C16.no-target-no-request] l.transfer.respCh == old(l.transfer.respCh) ==> xferTarget == old(xferTarget) && (l.transfer.target != 0 ==> !Eligible(l, l.transfer.target)) && (l.transfer.target == 0 ==> forall(k, !Eligible(l, k)))
+//@   ensures XferWF(l)
+//@   loop 1 invariant target == 0 && subset(visitedset(), keys(l.configs.Latest.Nodes)) && forall(k, visited(k) ==> !Eligible(l, k))
+//@   loop 1 invariant XferWF(l) && XferReplsCover(l) && l.transfer.respCh == old(l.transfer.respCh) && xferTarget == old(xferTarget) && l.transfer.target == 0
+
+//@ func (*leader).onTransfer
+//@   requires XferWF(l) && XferReplsCover(l) && !has(l.configs.Latest.Nodes, 0) && l.nid != 0
+//@   modifies l.transfer.term, l.transfer.transferLdr, l.transfer.deadline, l.transfer.timer.active, l.transfer.respCh, contents(l.connPools), xferTarget, t.task.result, t.task.greplied
+//@   ensures [C16.validate] old(l.transfer.timer.active) || NumVoters(l.configs.Latest) == 1 || (t.target != 0 && (t.target == l.nid || !IsVoter(l.configs.Latest, t.target))) ==>
+//@       l.transfer.term == old(l.transfer.term) && l.transfer.task == old(l.transfer.task) && l.transfer.target == old(l.transfer.target) && l.transfer.timer.active == old(l.transfer.timer.active) && l.transfer.respCh == old(l.transfer.respCh) && xferTarget == old(xferTarget) &&
+//@       (t.task != nil ==> t.task.greplied == old(t.task.greplied) + 1 && t.task.result != nil)
+//@   ensures [C16.records-term] !(old(l.transfer.timer.active) || NumVoters(l.configs.Latest) == 1 || (t.target != 0 && (t.target == l.nid || !IsVoter(l.configs.Latest, t.target)))) ==>
+//@       l.transfer.term == l.term && l.transfer.task == t.task && l.transfer.target == t.target && l.transfer.timer.active && (t.task != nil ==> t.task.greplied == old(t.task.greplied))
+//@   ensures [C16.target-is-caught-up-voter] l.transfer.respCh != old(l.transfer.respCh) ==> l.transfer.respCh != nil && Eligible(l, xferTarget) && (t.target != 0 ==> xferTarget == t.target)
+//@   ensures [C16.target-not-self] l.transfer.timer.active && !old(l.transfer.timer.active) ==> l.transfer.target != l.nid
+//@   ensures XferWF(l)
+
+//@ func (*leader).replyTransfer
+//@   requires XferWF(l)
+//@   modifies *
+//@   ensures [C16.actions-rerun] gcfgchecks == old(gcfgchecks) + 1
+
+//@ func (*leader).onTransferTimeout
+//@   requires XferWF(l)
+//@   modifies *
+//@   ensures [C16.actions-rerun] gcfgchecks == old(gcfgchecks) + 1
+
+//@ func (*leader).onNewTermTimeout
+//@   requires XferWF(l) && XferReplsCover(l) && !has(l.configs.Latest.Nodes, 0)
+//@   requires [C16.target-not-self] l.transfer.target != l.nid
+//@   modifies l.transfer.respCh, contents(l.connPools), xferTarget
+//@   ensures [C16.target-is-caught-up-voter] l.transfer.respCh != old(l.transfer.respCh) ==> l.transfer.respCh != nil && xferTarget != 0 && Eligible(l, xferTarget) && (l.transfer.target != 0 ==> xferTarget == l.transfer.target)
+//@   ensures l.transfer.respCh == old(l.transfer.respCh) ==> xferTarget == old(xferTarget)
+
+// result of the timeoutNow RPC, delivered on transfer.respCh (goroutine boundary: the response
+// object is the one the RPC goroutine filled in; rpc.from is the node the request was sent to,
+// which has a replication).
+//@ func (*leader).onTimeoutNowResult
+//@   requires XferWF(l) && XferReplsCover(l) && !has(l.configs.Latest.Nodes, 0)
+//@   requires [C16.target-not-self] l.transfer.target != l.nid
+//@   requires [PA-chan.timeout-now-result] (rpc.err == nil ==> ptrnonnil(rpc.response) && IsTimeoutNowResp(rpc.response)) && (rpc.err != nil ==> has(l.repls, rpc.from) && l.repls[rpc.from] != nil)
+//@   modifies *
+//@   ensures [C16.success-arms-new-term-timer] rpc.err == nil && old(ResultOf(rpc.response)) == success ==> gcfgchecks == old(gcfgchecks) && l.transfer.respCh == nil && l.transfer.newTermTimer.active && l.transfer.timer.active == old(l.transfer.timer.active) && l.transfer.term == old(l.transfer.term) && xferTarget == old(xferTarget)
+//@   ensures [C16.target-is-caught-up-voter] gcfgchecks == old(gcfgchecks) && l.transfer.respCh != nil ==> isfresh(l.transfer.respCh) && xferTarget != 0 && Eligible(l, xferTarget) && (l.transfer.target != 0 ==> xferTarget == l.transfer.target)
+//@   ensures [C16.no-target-no-request] gcfgchecks == old(gcfgchecks) && l.transfer.respCh == nil ==> xferTarget == old(xferTarget)
+//@   ensures [C16.reply-only-on-reject] gcfgchecks != old(gcfgchecks) ==> gcfgchecks == old(gcfgchecks) + 1 && rpc.err == nil && old(ResultOf(rpc.response)) != success
+// what the code does today (see the report: looks inverted w.r.t. the error branch): a rejection ends
+// the transfer only when NO target was requested; with a requested target the same node is retried
+//@   ensures rpc.err == nil && old(ResultOf(rpc.response)) != success ==> (gcfgchecks != old(gcfgchecks)) == (old(l.transfer.target) == 0)
+//@   ensures [C16.retry] gcfgchecks == old(gcfgchecks) ==> l.transfer.term == old(l.transfer.term) && l.transfer.task == old(l.transfer.task) && l.transfer.target == old(l.transfer.target) && l.transfer.timer.active == old(l.transfer.timer.active)
+
+//@ pure ResultOf(r response) rpcResult = as(r, *timeoutNowResp).result
+//@ pure IsTimeoutNowResp(r response) bool = istype(r, *timeoutNowResp)
+
+// ---------------------------------------------------------------------------
+// reachability bookkeeping of the replication goroutine (sequential piece)
+//@ func (*replication).notifyNoContact
+//@   nilable err
+//@   modifies r.noContact
